@@ -716,6 +716,57 @@ def check_call_contexts(ctx_kind):
     return None
 
 
+import hdl21 as _h9
+from typing import Any as _Any9
+
+
+@_h9.paramclass
+class PickleP:
+    tags = _h9.Param(dtype=_Any9, desc="tags", default=None)
+    k = _h9.Param(dtype=int, desc="k", default=0)
+
+
+@_h9.generator
+def PickleGen(p: PickleP) -> _h9.Module:
+    m = _h9.Module()
+    m.a = _h9.Port()
+    return m
+
+
+def check_pickled_params(_):
+    """parameters made - and hashed - in ANOTHER process (another string-hash seed), pickled and loaded here: equal to the
+    locally made ones, hashing like them, hitting the same cache entry"""
+    import os
+    import pickle
+    import subprocess
+    import sys
+    import hdl21 as h
+    from pyvc import loader
+    ROOT = os.path.dirname(os.path.dirname(os.path.abspath(__file__)))
+    w = {"case": "pickled-params"}
+    script = ("import sys, pickle\n"
+              "import props.c09 as c\n"
+              "ps = [c.PickleP(tags='alpha'), c.PickleP(tags=('beta', 'gamma')), c.PickleP(tags=None, k=2), c.PickleP(tags='two words')]\n"
+              "for p in ps: hash(p)\n"
+              "sys.stdout.write('PKL' + pickle.dumps(ps).hex())\n")
+    env = dict(os.environ, PYTHONHASHSEED="4711", PYTHONPATH=os.pathsep.join([ROOT, loader.REPO]))
+    r = subprocess.run([sys.executable, "-c", script], capture_output=True, text=True, env=env, cwd=ROOT, timeout=600)
+    line = [l for l in r.stdout.splitlines() if l.startswith("PKL")]
+    if not line:
+        return ("pickled.harness", f"worker failed: {r.stderr[-300:]}", w)
+    loaded = pickle.loads(bytes.fromhex(line[0][3:]))
+    local = [PickleP(tags="alpha"), PickleP(tags=("beta", "gamma")), PickleP(tags=None, k=2), PickleP(tags="two words")]
+    for q, p_ in zip(loaded, local):
+        m_local = PickleGen(p_)
+        if q != p_:
+            return ("pickled.equal", f"{q!r} loaded from another process != {p_!r} made here", w)
+        if hash(q) != hash(p_):
+            return ("pickled.hash", f"{q!r} loaded from another process hashes differently from the equal {p_!r} made here", w)
+        if PickleGen(q) is not m_local:
+            return ("memo.identity", f"PickleGen({q!r}) with parameters loaded from another process is another module", w)
+    return None
+
+
 def _parent(h, child):
     p = h.Module(name="FParent")
     p.i, p.o = h.Input(), h.Output()
@@ -809,6 +860,9 @@ def run(ctx):
                          "of a generator with enable_cache=False (directly / two levels down), after its result was elaborated "
                          "or a user of it exported, from inside a body that raises afterwards: identical Module, body run once, one exported module",
                     bound="9 contexts", key_of=repr)
+    ctx.run_bounded("pickled-parameters", ["all"], check_pickled_params,
+                    rule="parameter objects made and hashed in a process with another string-hash seed, pickled, loaded here: equal "
+                         "to, hashing like and memoised with the locally made ones", bound="4 parameter sets", key_of=repr)
     ctx.run_bounded("string-pair-names", ALPHABETS if ctx.tier == "thorough" else ALPHABETS[:3], check_string_pairs,
                     rule="every pair of strings built from up to three pieces of a small alphabet (a letter, the ` b=` "
                          "separator shape, `=`, blank, tab, line breaks, `None`): different pairs get different names",
@@ -832,6 +886,8 @@ def replay(payload):
         r = check_cross_process_names(0)
     elif inp.get("case") == "memo-after-failure":
         r = check_memo_after_failure(inp["kind"])
+    elif inp.get("case") == "pickled-params":
+        r = check_pickled_params(0)
     elif inp.get("case") == "call-contexts":
         r = check_call_contexts(inp["kind"])
     elif inp.get("case") == "hdl-valued":
